@@ -148,6 +148,18 @@ SITES = {
     'assert-dir-with-file-from-program': ('assert', ['dir d3 = {', '    file f.txt = -stdout-from % SITE', '}']),
     'ba-dir-with-file-from-program': ('before-assert', ['dir d4 = {', '    file f.txt = -stdout-from $ SITE', '}']),
     'cleanup-file-from-program': ('cleanup', ['file out5.txt = -stderr-from % SITE']),
+    # programs that are started in the act phase but are not the action to check (round 5: C19-r5m1 resolved the stdin of the
+    # action with process settings that had lost the timeout)
+    'act-stdin-from-program-set-in-setup': ('act', ['$ act-default'], ['stdin = -stdout-from % the-site']),
+    'act-stdin-from-program-transformed-by-run': ('act', ['$ act-default'], ["stdin = 'text' -transformed-by run % the-site"]),
+    'act-stdin-option-from-program': ('act', ['% act-default', '    -stdin -stdout-from % SITE']),
+    'act-source-interpreter': ('act', ['source line'], [], ['actor = source % the-site']),
+    # a process in [cleanup] that exceeds the timeout AFTER an assertion has failed: the step is still a HARD_ERROR (round 5:
+    # C19-r5m2 reported the earlier FAIL only)
+    'cleanup-shell-after-failed-assertion': ('cleanup', ['$ SITE'], [], [], ['exit-code == 1']),
+    'cleanup-file-from-program-after-failed-assertion': ('cleanup', ['file out6.txt = -stdout-from % SITE'], [], [],
+                                                         ['exit-code == 1']),
+    'cleanup-run-after-two-failed-assertions': ('cleanup', ['run % SITE'], [], [], ['exit-code == 1', 'exit-code == 2']),
 }
 
 # where the timeout instruction(s) stand relative to the site
@@ -161,6 +173,7 @@ def case_text(site: str, placement: str) -> str:
     secs['setup'] = ["file in.txt = 'x'"] + (list(SITES[site][2]) if len(SITES[site]) > 2 else [])
     conf = list(SITES[site][3]) if len(SITES[site]) > 3 else []
     secs['act'] = ['$ act-default']
+    secs['assert'] = list(SITES[site][4]) if len(SITES[site]) > 4 else []
     secs['cleanup'] = ['$ cleanup-probe']
     site_lines = [l.replace('SITE', 'the-site') for l in lines]
     if phase == 'act':
